@@ -102,6 +102,8 @@ def generate(tier, rng):
         cases.append(assign_case(rng))
     for _ in range(10 if tier == 'quick' else 60):
         cases.append(loop_case(rng))
+    for _ in range(25 if tier == 'quick' else 400):
+        cases.append(Case(gen.compound_loop_program(rng), limits=dict(steps=20000), meta=dict(gen='compound-in-loop', sample=False)))
     return cases
 
 def intrinsic(case, io, ia):
